@@ -476,6 +476,28 @@ def simplify(stmts, nonnull):
         out.append(st)
         if isinstance(st, (ast.Continue, ast.Break, ast.Return, ast.Raise)):
             break               # statements after an unconditional exit never run (left behind when a tail was copied into an exiting arm)
+    # x = p; if x is None: x = D   ->   x = D if p is None else p      (p a plain name, D a display / constant: the default-argument idiom
+    # of a spliced helper whose parameter got a name of its own)
+    merged = []
+    k = 0
+    while k < len(out):
+        st = out[k]
+        nxt = out[k + 1] if k + 1 < len(out) else None
+        if isinstance(st, ast.Assign) and len(st.targets) == 1 and isinstance(st.targets[0], ast.Name) and isinstance(st.value, ast.Name) \
+                and isinstance(nxt, ast.If) and not nxt.orelse and len(nxt.body) == 1 and isinstance(nxt.body[0], ast.Assign) and len(nxt.body[0].targets) == 1 \
+                and isinstance(nxt.body[0].targets[0], ast.Name) and nxt.body[0].targets[0].id == st.targets[0].id \
+                and isinstance(nxt.test, ast.Compare) and len(nxt.test.ops) == 1 and isinstance(nxt.test.ops[0], ast.Is) and isinstance(nxt.test.left, ast.Name) \
+                and nxt.test.left.id == st.targets[0].id and U(nxt.test.comparators[0]) == "None" \
+                and isinstance(nxt.body[0].value, (ast.List, ast.Tuple, ast.Dict, ast.Constant)) and not _used_names(nxt.body[0].value):
+            pname = st.value.id
+            test = ast.Compare(left=ast.Name(id=pname, ctx=ast.Load()), ops=[ast.Is()], comparators=[ast.Constant(value=None)])
+            merged.append(ast.Assign(targets=[ast.Name(id=st.targets[0].id, ctx=ast.Store())],
+                                     value=ast.IfExp(test=test, body=nxt.body[0].value, orelse=ast.Name(id=pname, ctx=ast.Load())), lineno=getattr(st, "lineno", 0), col_offset=0))
+            k += 2
+            continue
+        merged.append(st)
+        k += 1
+    out = merged
     # a, b = x, y  ->  a = x; b = y   (no target is read by any of the values)
     split = []
     for st in out:
